@@ -143,7 +143,7 @@ def alias_case(sh, rng, D):
     mod = _types.ModuleType(name)
     sys.modules[name] = mod
     try:
-        exec(compile(src, f"/verif/out/generated/{name}.py", "exec"), mod.__dict__)
+        exec(compile(src, f"/verif/out/generated/{name}.py", "exec", dont_inherit=True), mod.__dict__)
         T = mod.ROOT
         roots = [("alias", T, lambda v: v), ("list[alias]", list[T], lambda v: [v, v]), ("dict[str, alias]", dict[str, T], lambda v: {"r": v})]
 
